@@ -40,6 +40,9 @@ pub trait Dyn {
     fn ser_json(&self) -> Option<String> {
         None
     }
+    fn json_value_roundtrip(&self) -> Option<bool> {
+        None
+    }
     fn debug(&self) -> (String, String);
     fn jump(&mut self) -> bool {
         false
@@ -193,6 +196,42 @@ impl<'a, T> EqNo for &EqProbe<'a, T> {
         None
     }
 }
+/// a by-value duplicate where the type is Copy, decided at compile time like `EqProbe`
+pub struct CopyProbe<'a, T>(pub &'a T);
+pub trait CopyYes<T> {
+    fn maybe_copy(&self) -> Option<T>;
+}
+impl<'a, T: Copy> CopyYes<T> for CopyProbe<'a, T> {
+    fn maybe_copy(&self) -> Option<T> {
+        Some(*self.0)
+    }
+}
+pub trait CopyNo<T> {
+    fn maybe_copy(&self) -> Option<T>;
+}
+impl<'a, T> CopyNo<T> for &CopyProbe<'a, T> {
+    fn maybe_copy(&self) -> Option<T> {
+        None
+    }
+}
+/// `Default::default()` where the type provides it, decided at compile time like `EqProbe`
+pub struct DefProbe<T>(pub std::marker::PhantomData<T>);
+pub trait DefYes<T> {
+    fn maybe_default(&self) -> Option<T>;
+}
+impl<T: Default> DefYes<T> for DefProbe<T> {
+    fn maybe_default(&self) -> Option<T> {
+        Some(T::default())
+    }
+}
+pub trait DefNo<T> {
+    fn maybe_default(&self) -> Option<T>;
+}
+impl<T> DefNo<T> for &DefProbe<T> {
+    fn maybe_default(&self) -> Option<T> {
+        None
+    }
+}
 macro_rules! eq_method {
     () => {
         fn eq_dyn(&self, o: &dyn Dyn) -> Option<bool> {
@@ -213,7 +252,23 @@ macro_rules! serde_methods {
         fn ser_json(&self) -> Option<String> {
             serde_json::to_string(&self.0).ok()
         }
+        #[cfg(feature = "serde1")]
+        fn json_value_roundtrip(&self) -> Option<bool> {
+            Some(json_value_roundtrip(&self.0))
+        }
     };
+}
+/// the snapshot as a `serde_json::Value` tree (what a generator inside a tagged enum or a flattened record goes
+/// through) and back: both directions succeed and the restored value serializes to the same text
+#[cfg(feature = "serde1")]
+pub fn json_value_roundtrip<T: serde::Serialize + serde::de::DeserializeOwned>(x: &T) -> bool {
+    match serde_json::to_value(x) {
+        Ok(v) => match serde_json::from_value::<T>(v) {
+            Ok(y) => serde_json::to_string(&y).ok() == serde_json::to_string(x).ok(),
+            Err(_) => false,
+        },
+        Err(_) => false,
+    }
 }
 
 // ---- the xoshiro family, SplitMix64, XorShiftRng: plain-state generators ----
@@ -513,6 +568,8 @@ pub enum Ctor<'a> {
     SeedFromU64(u64),
     FromRng(&'a mut ByteSource),
     TryFromRng(&'a mut FallibleSource),
+    /// `Default::default()`, if the type has it
+    Default,
     #[cfg(feature = "serde1")]
     DeBincode(&'a [u8]),
     #[cfg(feature = "serde1")]
@@ -542,6 +599,10 @@ macro_rules! build {
             Ctor::TryFromRng(src) => match <$ty>::try_from_rng(src) {
                 Ok(r) => Built::Ok(Box::new($w(r))),
                 Err(e) => Built::SrcErr(e),
+            },
+            Ctor::Default => match (&DefProbe::<$ty>(std::marker::PhantomData)).maybe_default() {
+                Some(r) => Built::Ok(Box::new($w(r))),
+                None => Built::Unsupported("no Default".into()),
             },
             #[cfg(feature = "serde1")]
             Ctor::DeBincode(b) => build!(@debin $w, $ty, b, $s),
